@@ -352,11 +352,12 @@ trait ProductsHelper<N: NumericOps> {
         let shape_len = new_shape.len();
         new_shape[shape_len - 2] = arr_1.get_shape()?[arr_1.ndim()? - 2];
         new_shape[shape_len - 1] = arr_2.get_shape()?[arr_2.ndim()? - 1];
-        let chunk_len = arr_1.get_shape()?[arr_1.ndim()? - 2 ..].iter().product::<usize>();
-        let len = std::cmp::max(arr_1.len()?, arr_2.len()?) / chunk_len;
-        matmul_split(arr_1, len, chunk_len)?
+        let chunk_len_1 = arr_1.get_shape()?[arr_1.ndim()? - 2 ..].iter().product::<usize>();
+        let chunk_len_2 = arr_2.get_shape()?[arr_2.ndim()? - 2 ..].iter().product::<usize>();
+        let len = std::cmp::max(arr_1.len()? / chunk_len_1, arr_2.len()? / chunk_len_2);
+        matmul_split(arr_1, len, chunk_len_1)?
             .into_iter()
-            .zip(&matmul_split(arr_2, len, chunk_len)?)
+            .zip(&matmul_split(arr_2, len, chunk_len_2)?)
             .map(|(a, b)| a.matmul(b))
             .collect::<Vec<Result<Array<N>, _>>>()
             .has_error()?
